@@ -491,3 +491,428 @@ theorem ref_setPin (fc : FC) (a : Abs) (hh : fc.held = false) (I : FI fc) (r : R
   · right; rw [h2]; exact ⟨h1, by simp [h3]⟩
 
 end Zrnt.ForkChoice
+
+namespace Zrnt.ForkChoice.RefOps
+open Zrnt.ForkChoice Spec FC
+
+/-! ## 5. `UpdateJustified` with an unchanged finalized checkpoint -/
+
+/-- the answer of `InSubtree`, read off the two maps and fork-choice ancestry -/
+def insAns (pr : PA) (ra rl : Root) : Bool × Bool :=
+  match (aGet pr.blockSlots ra).bind (fun s => aGet pr.indices ⟨s, ra⟩),
+        (aGet pr.blockSlots rl).bind (fun s => aGet pr.indices ⟨s, rl⟩) with
+  | some a, some l => (false, anc pr.nodes a l)
+  | _, _ => (true, false)
+
+theorem insAns_frame {pr pr' : PA} (f : FrameS pr pr') (ra rl : Root) : insAns pr' ra rl = insAns pr ra rl := by
+  unfold insAns
+  rw [f.blockSlots, f.indices]
+  cases (aGet pr.blockSlots ra).bind (fun s => aGet pr.indices ⟨s, ra⟩) with
+  | none => rfl
+  | some x =>
+    cases (aGet pr.blockSlots rl).bind (fun s => aGet pr.indices ⟨s, rl⟩) with
+    | none => rfl
+    | some l => simp only [f.anc]
+
+/-- `inSubtree_eq_anc` without the hypothesis `updated = true`: the call first brings the links up to date -/
+theorem inSubtree_answer (pr : PA) (h : WF pr) (hc : Chain pr) (ra rl : Root) :
+    ∃ pr1, pr.inSubtree ra rl = .ok pr1 (insAns pr ra rl) ∧ WF pr1 ∧ Frame pr pr1 := by
+  by_cases hu : pr.updated = true
+  · exact ⟨pr, inSubtree_eq_anc pr h hc hu ra rl, h, Frame.refl pr⟩
+  · by_cases e : ra = rl
+    · subst e
+      refine ⟨pr, ?_, h, Frame.refl pr⟩
+      unfold PA.inSubtree insAns
+      rw [if_pos rfl]
+      cases hb : aGet pr.blockSlots ra with
+      | none => rfl
+      | some s =>
+        obtain ⟨i, hi⟩ := Option.isSome_iff_exists.1 (h.bs_node ra s hb)
+        simp only [Option.bind_some, hi, anc_self]
+    · obtain ⟨pr1, h1, hw1, hu1, hf1⟩ := wf_updateConnections pr h
+      have hc1 : Chain pr1 := chain_congr hf1.indices hf1.blockSlots hf1.len hf1.skel hc
+      have e1 : pr.inSubtree ra rl = pr1.inSubtree ra rl := by
+        unfold PA.inSubtree
+        simp only [if_neg e, hu, hu1, h1, Bool.false_eq_true, if_false, if_true]
+      refine ⟨pr1, ?_, hw1, hf1⟩
+      rw [e1, inSubtree_eq_anc pr1 hw1 hc1 hu1 ra rl]
+      exact congrArg _ (insAns_frame hf1.toFrameS ra rl)
+
+/-- the specification's `inside … = some true` is the model's "known and in the subtree" -/
+theorem inside_ans {fc : FC} {a : Abs} (h : WF fc.pa) (hc : Chain fc.pa) (r : Ref fc a) (ra rl : Root) :
+    a.inside ra rl = some true ↔ insAns fc.pa ra rl = (false, true) := by
+  rw [inside_eq h hc r]
+  unfold insAns
+  cases (aGet fc.pa.blockSlots ra).bind (fun s => aGet fc.pa.indices ⟨s, ra⟩) with
+  | none => simp
+  | some x =>
+    cases (aGet fc.pa.blockSlots rl).bind (fun s => aGet fc.pa.indices ⟨s, rl⟩) with
+    | none => simp
+    | some l => simp
+
+end Zrnt.ForkChoice.RefOps
+
+namespace Zrnt.ForkChoice.RefOps
+open Zrnt.ForkChoice Spec FC
+
+/-- the specification's `updateJustified` after the "nothing newer" and pin tests, finalized checkpoint unchanged -/
+def specInner (a : Abs) (j : Checkpoint) (b : Option (List Nat)) : Abs × Ans :=
+  if j.epoch < a.finalized.epoch then (a, .justify false [] none) else
+  if a.justified ≠ j && !(a.inside a.finalized.root j.root = some true && a.finalized.epoch ≤ j.epoch) then
+    (a, .justify false [] none) else
+  match b with
+  | none => (a, .justify false [] none)
+  | some bals => ({ a with balances := bals, justified := j }, .justify true [] none)
+
+def specPinOk (a : Abs) (t : Root) : Bool :=
+  match a.pin with
+  | some p => t = p.root || a.inside p.root t = some true
+  | none => true
+
+theorem spec_updateJustified (a : Abs) (t : Root) (j : Checkpoint) (b : Option (List Nat)) :
+    a.updateJustified t j a.finalized b =
+      if a.justified.epoch ≥ j.epoch && a.finalized.epoch ≥ a.finalized.epoch then (a, .justify true [] none) else
+      if !specPinOk a t then (a, .justify false [] none) else specInner a j b := by
+  unfold Abs.updateJustified specInner specPinOk
+  simp only [ne_eq, not_true_eq_false, decide_false, Bool.false_and, Bool.false_eq_true, if_false]
+  cases b <;> rfl
+
+end Zrnt.ForkChoice.RefOps
+
+namespace Zrnt.ForkChoice.RefOps
+open Zrnt.ForkChoice Spec FC
+
+/-- what holds of the model state inside the body of `UpdateJustified` (mutex held) -/
+structure St (a : Abs) (fc : FC) : Prop where
+  held : fc.held = true
+  log : fc.pa.sinkLog = []
+  inv : FI fc
+  ref : Ref fc a
+
+/-- outcome of (a part of) the body against the specification's result `sp` -/
+def Outcome (sp : Abs × Ans) (r : Out FC Unit) : Prop :=
+  match r with
+  | .ok fc' _ => St sp.1 fc' ∧ sp.2 = .justify true [] none
+  | .err fc' => St sp.1 fc' ∧ sp.2 = .justify false [] none
+  | .panic => False
+  | .blocked => False
+
+theorem St.frame {a : Abs} {fc : FC} (s : St a fc) (pa' : PA) (hw : WF pa') (f : Frame fc.pa pa') :
+    St a { fc with pa := pa' } :=
+  ⟨s.held, f.sinkLog.trans s.log, PInv.frame s.inv hw f, ref_frame fc a s.ref pa' f⟩
+
+/-- a subtree test inside the body: the answer, and the state it leaves -/
+theorem St.gate {a : Abs} {fc : FC} (s : St a fc) (ra rl : Root) :
+    ∃ pa', fc.pa.inSubtree ra rl = .ok pa' (insAns fc.pa ra rl) ∧ St a { fc with pa := pa' } := by
+  obtain ⟨pa', e, hw, f⟩ := inSubtree_answer fc.pa s.inv.wf s.inv.chain ra rl
+  exact ⟨pa', e, s.frame pa' hw f⟩
+
+theorem checkCp_eq {a : Abs} {fc : FC} (s : St a fc) (changed : Bool) (cp : Checkpoint) :
+    ∃ fc', St a fc' ∧ ∀ k : FC → Out FC Unit,
+      fc.checkCp changed cp k =
+        if changed && !(decide (a.inside a.finalized.root cp.root = some true) && decide (a.finalized.epoch ≤ cp.epoch))
+        then .err fc' else k fc' := by
+  cases changed with
+  | false => exact ⟨fc, s, fun _ => rfl⟩
+  | true =>
+    obtain ⟨pa', e, s'⟩ := s.gate fc.finalized.root cp.root
+    refine ⟨_, s', ?_⟩
+    intro k
+    have hin := inside_ans s.inv.wf s.inv.chain s.ref fc.finalized.root cp.root
+    unfold checkCp
+    rw [s.ref.finalized]
+    simp only [if_true, e, Bool.true_and]
+    generalize insAns fc.pa fc.finalized.root cp.root = ans at hin
+    obtain ⟨u, i⟩ := ans
+    cases u with
+    | true =>
+      have : ¬ a.inside fc.finalized.root cp.root = some true := fun h => by have := hin.1 h; cases this
+      simp [this]
+    | false =>
+      cases i with
+      | false =>
+        have : ¬ a.inside fc.finalized.root cp.root = some true := fun h => by have := hin.1 h; cases this
+        simp [this]
+      | true =>
+        have : a.inside fc.finalized.root cp.root = some true := hin.2 rfl
+        simp only [this, decide_true, Bool.true_and, Bool.false_eq_true, if_false, Bool.not_true, Bool.false_or]
+        by_cases hle : fc.finalized.epoch ≤ cp.epoch
+        · have : ¬ fc.finalized.epoch > cp.epoch := by omega
+          simp [hle, this]
+        · have : fc.finalized.epoch > cp.epoch := by omega
+          simp [hle, this]
+
+end Zrnt.ForkChoice.RefOps
+
+namespace Zrnt.ForkChoice.RefOps
+open Zrnt.ForkChoice Spec FC
+
+theorem checkCp_false (fc : FC) (cp : Checkpoint) (k : FC → Out FC Unit) : fc.checkCp false cp k = k fc := rfl
+
+/-- the unexported `updateJustified` with the finalized checkpoint unchanged against the specification -/
+theorem inner_outcome {a : Abs} {fc : FC} (s : St a fc) (j : Checkpoint) (b : Option (List Nat)) :
+    Outcome (specInner a j b) (fc.updateJustifiedInner a.finalized j b) := by
+  unfold updateJustifiedInner specInner
+  by_cases h1 : j.epoch < a.finalized.epoch
+  · rw [if_pos h1, if_pos h1]; exact ⟨s, rfl⟩
+  · rw [if_neg h1, if_neg h1]
+    have e0 : decide (fc.finalized ≠ a.finalized) = false := by rw [s.ref.finalized]; simp
+    rw [e0, checkCp_false]
+    obtain ⟨fc2, s2, e2⟩ := checkCp_eq s (decide (fc.justified ≠ j)) j
+    rw [e2, ← s.ref.justified]
+    by_cases h2 : (decide (a.justified ≠ j) &&
+        !(decide (a.inside a.finalized.root j.root = some true) && decide (a.finalized.epoch ≤ j.epoch))) = true
+    · rw [if_pos h2, if_pos h2]; exact ⟨s2, rfl⟩
+    · rw [if_neg h2, if_neg h2]
+      cases b with
+      | none => exact ⟨s2, rfl⟩
+      | some bals =>
+        simp only
+        obtain ⟨ds, vs', pr', e, e3, I', fr, hj, hf⟩ := applyDeltas_frame s2.inv bals j.epoch a.finalized.epoch
+        obtain ⟨t1, t2, t3, t4, t5⟩ :=
+          computeDeltas_settle _ _ _ _ _ _ e s2.ref.fresh s2.ref.next_in s2.ref.cur_le
+        rw [e]
+        simp only
+        rw [e3]
+        refine ⟨⟨s2.held, fr.sinkLog.trans s2.log, I', ?_⟩, rfl⟩
+        have := ref_build s2.ref pr' fr vs' false fc2.held bals j a.finalized hj hf t3 t4 t5 (fun _ => t2)
+        rw [t1, ← s2.ref.votes] at this
+        exact this
+
+end Zrnt.ForkChoice.RefOps
+
+namespace Zrnt.ForkChoice.RefOps
+open Zrnt.ForkChoice Spec FC
+
+/-- `afterPin` of `UpdateJustified` (a local function there) -/
+def afterPin (fc : FC) (justified finalized : Checkpoint) (balances : Option (List Nat)) : Out FC Unit :=
+  let prevFinalized := fc.finalized
+  match fc.updateJustifiedInner finalized justified balances with
+  | .panic => .panic
+  | .blocked => .blocked
+  | .err fc => .err fc
+  | .ok fc _ =>
+    if prevFinalized ≠ finalized then
+      let fc := { fc with pin := none }
+      match fc.pa.onPrune finalized.root (finalized.epoch * fc.spe) with
+      | .panic => .panic
+      | .spin => .blocked
+      | .err pa => .err { fc with pa := pa }
+      | .ok pa _ => .ok { fc with pa := pa } ()
+    else .ok fc ()
+
+/-- the body of `UpdateJustified` under the lock -/
+def ujBody (fc : FC) (trigger : Root) (justified finalized : Checkpoint) (balances : Option (List Nat)) : Out FC Unit :=
+  if fc.justified.epoch ≥ justified.epoch && fc.finalized.epoch ≥ finalized.epoch then .ok fc () else
+  match fc.pin with
+  | some pin =>
+    if trigger ≠ pin.root then
+      match fc.pa.inSubtree pin.root trigger with
+      | .panic => .panic
+      | .spin => .blocked
+      | .err pa => .err { fc with pa := pa }
+      | .ok pa (unknown, inS) =>
+        let fc := { fc with pa := pa }
+        if unknown then .err fc else if !inS then .err fc else afterPin fc justified finalized balances
+    else afterPin fc justified finalized balances
+  | none => afterPin fc justified finalized balances
+
+theorem updateJustified_unfold (fc : FC) (t : Root) (j f : Checkpoint) (b : Option (List Nat)) :
+    fc.updateJustified t j f b = fc.withLock (fun fc => ujBody fc t j f b) := rfl
+
+theorem afterPin_outcome {a : Abs} {fc : FC} (s : St a fc) (j : Checkpoint) (b : Option (List Nat)) :
+    Outcome (specInner a j b) (afterPin fc j a.finalized b) := by
+  have h := inner_outcome s j b
+  unfold afterPin
+  have e0 : ¬ fc.finalized ≠ a.finalized := by rw [s.ref.finalized]; simp
+  simp only [e0, if_false]
+  revert h
+  cases fc.updateJustifiedInner a.finalized j b with
+  | ok s' u => exact fun h => h
+  | err s' => exact fun h => h
+  | panic => exact fun h => h
+  | blocked => exact fun h => h
+
+theorem ujBody_outcome {a : Abs} {fc : FC} (s : St a fc) (t : Root) (j : Checkpoint) (b : Option (List Nat)) :
+    Outcome (a.updateJustified t j a.finalized b) (ujBody fc t j a.finalized b) := by
+  rw [spec_updateJustified]
+  unfold ujBody
+  have c1 : (decide (fc.justified.epoch ≥ j.epoch) && decide (fc.finalized.epoch ≥ a.finalized.epoch)) =
+      (decide (a.justified.epoch ≥ j.epoch) && decide (a.finalized.epoch ≥ a.finalized.epoch)) := by
+    rw [s.ref.justified, s.ref.finalized]
+  rw [c1]
+  by_cases h1 : (decide (a.justified.epoch ≥ j.epoch) && decide (a.finalized.epoch ≥ a.finalized.epoch)) = true
+  · rw [if_pos h1, if_pos h1]; exact ⟨s, rfl⟩
+  · rw [if_neg h1, if_neg h1]
+    unfold specPinOk
+    rw [s.ref.pin]
+    cases hp : fc.pin with
+    | none => exact afterPin_outcome s j b
+    | some pin =>
+      simp only
+      by_cases h2 : t = pin.root
+      · simp only [h2, ne_eq, not_true_eq_false, if_false, decide_true, Bool.true_or, Bool.not_true,
+          Bool.false_eq_true]
+        exact afterPin_outcome s j b
+      · simp only [ne_eq, h2, not_false_eq_true, if_true, decide_false, Bool.false_or]
+        obtain ⟨pa', e, s'⟩ := s.gate pin.root t
+        rw [hp] at s'
+        have hin := inside_ans s.inv.wf s.inv.chain s.ref pin.root t
+        rw [e]
+        generalize insAns fc.pa pin.root t = ans at hin
+        obtain ⟨u, i⟩ := ans
+        cases u with
+        | true =>
+          have : ¬ a.inside pin.root t = some true := fun h => by have := hin.1 h; cases this
+          simp only [this, decide_false, Bool.not_false, if_true]
+          exact ⟨s', rfl⟩
+        | false =>
+          cases i with
+          | false =>
+            have : ¬ a.inside pin.root t = some true := fun h => by have := hin.1 h; cases this
+            simp only [this, decide_false, Bool.not_false, if_true, Bool.false_eq_true, if_false]
+            exact ⟨s', rfl⟩
+          | true =>
+            have : a.inside pin.root t = some true := hin.2 rfl
+            simp only [this, decide_true, Bool.not_true, Bool.false_eq_true, if_false]
+            exact afterPin_outcome s' j b
+
+end Zrnt.ForkChoice.RefOps
+
+namespace Zrnt.ForkChoice.RefOps
+open Zrnt.ForkChoice Spec FC
+
+/-- the mutex flag is not part of the refinement relation -/
+theorem ref_held {fc : FC} {a : Abs} (r : Ref fc a) (h : Bool) : Ref { fc with held := h } a :=
+  { spe := r.spe, nodes := r.nodes, votes := r.votes, balances := r.balances, justified := r.justified,
+    finalized := r.finalized, pin := r.pin, sink := r.sink, clean := r.clean, jE := r.jE, fE := r.fE,
+    fresh := r.fresh, next_in := r.next_in, cur_le := r.cur_le, settled := r.settled }
+
+/-- the statement of `ref_updateJustified` as a predicate on the outcome -/
+def Final (sp : Abs × Ans) (r : Out FC Unit) : Prop :=
+  match r with
+  | .ok fc' _ => fc'.held = false ∧ fc'.pa.sinkLog = [] ∧ FI fc' ∧ Ref fc' sp.1 ∧ sp.2 = .justify true [] none
+  | .err fc' => fc'.held = false ∧ fc'.pa.sinkLog = [] ∧ FI fc' ∧ Ref fc' sp.1 ∧ sp.2 = .justify false [] none
+  | _ => False
+
+theorem final_withLock (fc : FC) (hh : fc.held = false) (sp : Abs × Ans) (body : FC → Out FC Unit)
+    (hb : Outcome sp (body { fc with held := true })) : Final sp (fc.withLock body) := by
+  unfold withLock
+  simp only [hh, Bool.false_eq_true, if_false]
+  revert hb
+  cases body { fc with held := true } with
+  | ok s u => exact fun hb => ⟨rfl, hb.1.log, hb.1.inv, ref_held hb.1.ref false, hb.2⟩
+  | err s => exact fun hb => ⟨rfl, hb.1.log, hb.1.inv, ref_held hb.1.ref false, hb.2⟩
+  | panic => exact fun hb => hb
+  | blocked => exact fun hb => hb
+
+theorem final_updateJustified (fc : FC) (a : Abs) (hh : fc.held = false) (I : FI fc) (r : Ref fc a) (t : Root)
+    (j f : Checkpoint) (b : Option (List Nat)) (hq : f = fc.finalized) (hlog : fc.pa.sinkLog = []) :
+    Final (a.updateJustified t j f b) (fc.updateJustified t j f b) := by
+  have hq' : f = a.finalized := by rw [r.finalized]; exact hq
+  subst hq'
+  rw [updateJustified_unfold]
+  apply final_withLock fc hh
+  exact ujBody_outcome (fc := { fc with held := true }) ⟨rfl, hlog, I, ref_held r true⟩ t j b
+
+end Zrnt.ForkChoice.RefOps
+
+namespace Zrnt.ForkChoice
+open Spec FC
+
+theorem ref_updateJustified (fc : FC) (a : Abs) (hh : fc.held = false) (I : FI fc) (r : Ref fc a) (t : Root)
+    (j f : Checkpoint) (b : Option (List Nat)) (hq : f = fc.finalized) (hlog : fc.pa.sinkLog = []) :
+    match fc.updateJustified t j f b with
+    | .ok fc' _ => fc'.held = false ∧ fc'.pa.sinkLog = [] ∧ FI fc' ∧ Ref fc' (a.updateJustified t j f b).1 ∧
+        (a.updateJustified t j f b).2 = .justify true [] none
+    | .err fc' => fc'.held = false ∧ fc'.pa.sinkLog = [] ∧ FI fc' ∧ Ref fc' (a.updateJustified t j f b).1 ∧
+        (a.updateJustified t j f b).2 = .justify false [] none
+    | _ => False := by
+  have h := RefOps.final_updateJustified fc a hh I r t j f b hq hlog
+  revert h
+  cases fc.updateJustified t j f b with
+  | ok s u => exact fun h => h
+  | err s => exact fun h => h
+  | panic => exact fun h => h
+  | blocked => exact fun h => h
+
+end Zrnt.ForkChoice
+
+/-! ## non-vacuity: all hypotheses hold together on `refExFC2`/`refExAbs2` (anchor `(1,0)`, block `2` at slot `1`),
+and the theorems say something there -/
+namespace Zrnt.ForkChoice
+open Spec FC
+
+theorem RefOps.refEx2_fi : FI refExFC2 := by
+  have hz : aGet refExFC2.pa.indices NodeRef.zero = none := by decide
+  refine PInv.mk refEx2_ok.1 refEx2_ok.2 hz (fun v hv => nomatch hv) ?_
+  intro i n hn
+  have hw : ∀ m ∈ refExFC2.pa.nodes, m.weight = 0 := by decide
+  rw [hw n (List.mem_of_getElem? hn)]
+  rfl
+
+/-- 1: the link pass of `updateConnections` keeps `Ref` -/
+example : Ref { refExFC2 with pa := refExFC2.pa.updateConnections.1 } refExAbs2 := by
+  obtain ⟨pr', e, _, _, f⟩ := wf_updateConnections refExFC2.pa RefOps.refEx2_fi.wf
+  rw [e]
+  exact ref_frame refExFC2 refExAbs2 refEx2_ref pr' f
+
+/-- 3: validator 0 attests to block `2` at slot `1`: accepted on both sides, `Ref` kept -/
+example : ∃ fc' b, refExFC2.processAttestation 0 2 1 = .ok fc' b ∧ fc'.held = false ∧ fc'.pa = refExFC2.pa ∧
+    Ref fc' (refExAbs2.processAttestation 0 2 1).1 ∧ (refExAbs2.processAttestation 0 2 1).2 = b :=
+  ref_processAttestation refExFC2 refExAbs2 rfl RefOps.refEx2_fi refEx2_ref 0 2 1 (by decide)
+
+example : (refExAbs2.processAttestation 0 2 1).2 = true ∧
+    (refExAbs2.processAttestation 0 2 1).1.votes = [some ⟨⟨1, 2⟩, 0⟩] ∧
+    (refExAbs2.processAttestation 0 3 1).2 = false := by decide
+
+/-- 2: after that attestation a change is pending (`changed = true`, tracker not applied), and
+`updateVotesMaybe` settles it under `Ref` -/
+example : ∃ fc a, FI fc ∧ Ref fc a ∧ fc.changed = true ∧ (∃ v ∈ fc.votes, v.cur ≠ v.next) ∧
+    ∃ fc', fc.updateVotesMaybe = .ok fc' () ∧ Ref fc' a ∧ ∀ v ∈ fc'.votes, v.cur = v.next := by
+  obtain ⟨fc', b, e, hh, _, r', _⟩ :=
+    ref_processAttestation refExFC2 refExAbs2 rfl RefOps.refEx2_fi refEx2_ref 0 2 1 (by decide)
+  have hs := safeI_processAttestation refExFC2 rfl RefOps.refEx2_fi 0 2 1
+  rw [e] at hs
+  have e' : refExFC2.processAttestation 0 2 1 =
+      .ok { refExFC2 with votes := [⟨NodeRef.zero, ⟨1, 2⟩, 0, 0⟩], changed := true } true := rfl
+  rw [e'] at e
+  cases e
+  obtain ⟨fc'', e2, r2, _, hset, _⟩ := ref_updateVotesMaybe _ _ hs.2 r'
+  exact ⟨_, _, hs.2, r', rfl, ⟨_, List.mem_cons_self .., by decide⟩, fc'', e2, r2, hset⟩
+
+/-- 4: pinning an existing node succeeds on both sides, pinning a missing one fails on both sides -/
+example : refExAbs2.has ⟨1, 2⟩ = true ∧ refExFC2.setPin 2 1 = .ok { refExFC2 with pin := some ⟨1, 2⟩ } () ∧
+    Ref { refExFC2 with pin := some ⟨1, 2⟩ } { refExAbs2 with pin := some ⟨1, 2⟩ } := by
+  rcases ref_setPin refExFC2 refExAbs2 rfl RefOps.refEx2_fi refEx2_ref 2 1 with h | h
+  · exact h
+  · have : refExAbs2.has ⟨1, 2⟩ = true := by decide
+    rw [this] at h; cases h.1
+
+example : refExAbs2.has ⟨2, 2⟩ = false ∧ refExFC2.setPin 2 2 = .err refExFC2 := by
+  rcases ref_setPin refExFC2 refExAbs2 rfl RefOps.refEx2_fi refEx2_ref 2 2 with h | h
+  · have : refExAbs2.has ⟨2, 2⟩ = false := by decide
+    rw [this] at h; cases h.1
+  · exact h
+
+/-- 5: justifying block `2` (epoch 1) with the finalized checkpoint unchanged: the hypotheses hold, the
+specification accepts, hence so does the model, and `Ref` holds afterwards; an unknown root is refused -/
+example : refExFC2.held = false ∧ FI refExFC2 ∧ Ref refExFC2 refExAbs2 ∧ (⟨0, 1⟩ : Checkpoint) = refExFC2.finalized ∧
+    refExFC2.pa.sinkLog = [] ∧
+    (refExAbs2.updateJustified 1 ⟨1, 2⟩ ⟨0, 1⟩ (some [32, 32])).2 = .justify true [] none ∧
+    (refExAbs2.updateJustified 1 ⟨1, 2⟩ ⟨0, 1⟩ (some [32, 32])).1.justified = ⟨1, 2⟩ ∧
+    (refExAbs2.updateJustified 1 ⟨1, 7⟩ ⟨0, 1⟩ (some [32, 32])).2 = .justify false [] none :=
+  ⟨rfl, RefOps.refEx2_fi, refEx2_ref, rfl, rfl, by decide, by decide, by decide⟩
+
+example : ∃ fc', refExFC2.updateJustified 1 ⟨1, 2⟩ ⟨0, 1⟩ (some [32, 32]) = .ok fc' () ∧ fc'.held = false ∧ FI fc' ∧
+    Ref fc' (refExAbs2.updateJustified 1 ⟨1, 2⟩ ⟨0, 1⟩ (some [32, 32])).1 := by
+  have h := ref_updateJustified refExFC2 refExAbs2 rfl RefOps.refEx2_fi refEx2_ref 1 ⟨1, 2⟩ ⟨0, 1⟩ (some [32, 32]) rfl rfl
+  have hs : (refExAbs2.updateJustified 1 ⟨1, 2⟩ ⟨0, 1⟩ (some [32, 32])).2 = .justify true [] none := by decide
+  revert h
+  cases refExFC2.updateJustified 1 ⟨1, 2⟩ ⟨0, 1⟩ (some [32, 32]) with
+  | ok s u => exact fun h => ⟨s, rfl, h.1, h.2.2.1, h.2.2.2.1⟩
+  | err s => intro h; rw [hs] at h; cases h.2.2.2.2
+  | panic => exact fun h => h.elim
+  | blocked => exact fun h => h.elim
+
+end Zrnt.ForkChoice
